@@ -663,7 +663,7 @@ def cases(tier):
                     sup['defuse'] = ['e0', 'e1']
                     out.append(sup)
                 out.append(base)
-                if (fam in ('native', 'events') or thorough) and (u is None or u == 2):
+                if (fam in ('native', 'events') or (thorough and fam != 'chain')) and (u is None or u == 2):
                     emb = dict(base)
                     emb['mode'] = 'embedded'
                     # (a long timeout keeps the environment alive while the native activities act on its events)
